@@ -41,7 +41,7 @@ def run(F, ck, tier):
             ck.ob('R20.1', 'shape:' + fn.name, False, '%s does not have the (self, b, x0, x1) shape any more' % fn.qual, '%s:%d' % (fn.file, fn.line))
             continue
         _, b, x0, x1 = names
-        fl = flow.Flow(F, fn)
+        fl = flow.Flow(F, fn, idx_value=False)
         ncalls = 0
         for e in fl.events:
             if e.kind != 'call' or not e.name or not e.name.startswith('select') or len(e.args) != 3:
@@ -66,7 +66,7 @@ def run(F, ck, tier):
         ck.ob('R20.1', 'nonempty:' + fn.name, ncalls > 0, '%d select calls' % ncalls if ncalls else '%s no longer delegates to element-wise select calls' % fn.qual, '%s:%d' % (fn.file, fn.line))
         # result literal fields come from the same-named field
         for e in fl.events:
-            if e.kind == 'struct' and not e.stack and e.val:
+            if e.kind == 'struct' and not e.stack and e.val and not str(e.extra[0]).startswith('Range'):   # `a..b` is a Range literal, not a selected aggregate
                 for f, v in e.val.items():
                     g0 = {p for p in roots_fields(v, x0) if p}
                     g1 = {p for p in roots_fields(v, x1) if p}
